@@ -171,7 +171,8 @@ theorem sim_msc {e : Ir.Expr} {a : HlslAst.Expr} {t : Ty}
 /-- static type of the operand after `try_implicit_truncate` -/
 def truncTy (tx ty : VTy) : VTy :=
   match tx, ty with
-  | .vec k _, .sc _ => .sc k
+  | .vec k m, .sc _ => if 1 < m then .sc k else tx
+  | .vec k m, .vec _ 1 => if 1 < m then .sc k else tx
   | .vec k m, .vec _ 2 => if 2 < m then .vec k 2 else tx
   | .vec k m, .vec _ 3 => if 3 < m then .vec k 3 else tx
   | _, _ => tx
@@ -179,7 +180,8 @@ def truncTy (tx ty : VTy) : VTy :=
 /-- components `try_implicit_truncate` selects (`none`: the operand itself) -/
 def truncIdx (tx ty : VTy) : Option (List Nat) :=
   match tx, ty with
-  | .vec _ _, .sc _ => some [0]
+  | .vec _ m, .sc _ => if 1 < m then some [0] else none
+  | .vec _ m, .vec _ 1 => if 1 < m then some [0] else none
   | .vec _ m, .vec _ 2 => if 2 < m then some [0, 1] else none
   | .vec _ m, .vec _ 3 => if 3 < m then some [0, 1, 2] else none
   | _, _ => none
@@ -259,10 +261,15 @@ theorem trunc_typeOf {x' : VAExpr} {tx : VTy} (ty : VTy) (hx : VMsl.typeOf M.msi
     have h2 : 2 ≤ m := hox.1.2
     cases ty with
     | sc t =>
-      simp [implicitTruncate, truncTy, VMsl.typeOf, hx, VMsl.memberTy, parse_trunc1, Spec.SemVec.swzTy]
+      have h1 : 1 < m := by omega
+      simp [implicitTruncate, truncTy, h1, VMsl.typeOf, hx, VMsl.memberTy, parse_trunc1, Spec.SemVec.swzTy]
       omega
     | vec t n =>
       match n with
+      | 1 =>
+        have h1 : 1 < m := by omega
+        simp [implicitTruncate, truncTy, h1, VMsl.typeOf, hx, VMsl.memberTy, parse_trunc1, Spec.SemVec.swzTy]
+        omega
       | 2 =>
         by_cases h : 2 < m
         · simp [implicitTruncate, truncTy, h, VMsl.typeOf, hx, VMsl.memberTy, parse_trunc2, Spec.SemVec.swzTy]; omega
@@ -271,7 +278,7 @@ theorem trunc_typeOf {x' : VAExpr} {tx : VTy} (ty : VTy) (hx : VMsl.typeOf M.msi
         by_cases h : 3 < m
         · simp [implicitTruncate, truncTy, h, VMsl.typeOf, hx, VMsl.memberTy, parse_trunc3, Spec.SemVec.swzTy]; omega
         · simp [implicitTruncate, truncTy, h, hx]
-      | 0 | 1 | n + 4 => simp [implicitTruncate, truncTy, hx]
+      | 0 | n + 4 => simp [implicitTruncate, truncTy, hx]
 
 theorem trunc_eval {x' : VAExpr} {tx : VTy} (ty : VTy) (hx : VMsl.typeOf M.msig env x' = some tx) (hox : VOk.tyOKM tx = true) (σ : Store) :
     VMsl.eval M env ρ (implicitTruncate tx ty x') σ =
@@ -292,7 +299,8 @@ theorem trunc_eval {x' : VAExpr} {tx : VTy} (ty : VTy) (hx : VMsl.typeOf M.msig 
     cases ty with
     | sc t =>
       have : 0 < m := by omega
-      simp [implicitTruncate, truncIdx, VMsl.eval, hx, VMsl.memberTy, parse_trunc1, this]
+      have h1 : 1 < m := by omega
+      simp [implicitTruncate, truncIdx, h1, VMsl.eval, hx, VMsl.memberTy, parse_trunc1, this]
       cases VMsl.eval M env ρ x' σ with
       | none => rfl
       | some p => obtain ⟨v, σ1⟩ := p; simp only []; cases select _ v <;> rfl
@@ -317,7 +325,14 @@ theorem trunc_eval {x' : VAExpr} {tx : VTy} (ty : VTy) (hx : VMsl.typeOf M.msig 
           | none => rfl
           | some p => obtain ⟨v, σ1⟩ := p; simp only []; cases select _ v <;> rfl
         · simp [implicitTruncate, truncIdx, h]
-      | 0 | 1 | n + 4 => simp [implicitTruncate, truncIdx]
+      | 1 =>
+        have : 0 < m := by omega
+        have h1 : 1 < m := by omega
+        simp [implicitTruncate, truncIdx, h1, VMsl.eval, hx, VMsl.memberTy, parse_trunc1, this]
+        cases VMsl.eval M env ρ x' σ with
+        | none => rfl
+        | some p => obtain ⟨v, σ1⟩ := p; simp only []; cases select _ v <;> rfl
+      | 0 | n + 4 => simp [implicitTruncate, truncIdx]
 
 theorem trunc_castOK {tx ty : VTy} (hox : VOk.tyOKM tx = true) (hoy : VOk.tyOKM ty = true) (hf : VOk.castFits tx ty = true) :
     VMsl.castOK (truncTy tx ty) ty = true := by
@@ -327,7 +342,7 @@ theorem trunc_castOK {tx ty : VTy} (hox : VOk.tyOKM tx = true) (hoy : VOk.tyOKM 
     simp only [VOk.tyOKM, Bool.and_eq_true, decide_eq_true_eq] at hox
     have hm := dims hox.1.2 hox.2
     cases ty with
-    | sc t => simp [truncTy, VMsl.castOK]
+    | sc t => rcases hm with rfl | rfl | rfl <;> simp [truncTy, VMsl.castOK]
     | vec t n =>
       simp only [VOk.tyOKM, Bool.and_eq_true, decide_eq_true_eq] at hoy
       have hn := dims hoy.1.2 hoy.2
@@ -698,7 +713,8 @@ theorem binTy_self {m : MBin} {T : VTy} (h : binSide m T) : VMsl.binTy m T T = s
       rcases arithK_cases h with rfl | rfl | rfl <;> simp [VMsl.binTy, hs', Msl.common, Msl.promote]
 
 /-- value of a binary operator on two values of the shape of the operand type -/
-theorem binAt_self {P : Prim} {m : MBin} {T : VTy} {va vb : VVal} (h : binSide m T) (ha : VOk.shaped T va = true) (hb : VOk.shaped T vb = true) :
+theorem binAt_self {P : Prim} {m : MBin} {T : VTy} {va vb : VVal} (h : binSide m T) (ha : VOk.shaped T va = true) (hb : VOk.shaped T vb = true)
+    (hrem : m = .mod → T.scalar ≠ .float) :
     VMsl.binAt P T T T m va vb = lift2 (binop P m) va vb := by
   cases T with
   | vec k n => simp [VMsl.binAt]
@@ -712,6 +728,9 @@ theorem binAt_self {P : Prim} {m : MBin} {T : VTy} {va vb : VVal} (h : binSide m
     · have hs' : Msl.isShift m = false := by simpa using hs
       simp only [hs', Bool.false_eq_true, if_false] at h
       rcases arithK_cases h with rfl | rfl | rfl <;> simp [VMsl.binAt, hs', Msl.binopM, lift2]
+      -- `float`: the scalar operator `%` does not exist (the exporter writes `metal::fmod`)
+      have hnm : ¬ m = MBin.mod := fun hm => absurd rfl (hrem hm)
+      simp [hnm]
 
 theorem operand_tys {m : MBin} {T : VTy} (h : binSide m T) : VMsl.operandTy m T T = T := by
   cases T with
@@ -764,7 +783,7 @@ theorem sim_mbin {vty : Var → Ty} {o : IntrinsicOp} {b : BinOp} {x y : VExpr} 
             obtain ⟨vb, σ2⟩ := r2
             have sa := shape_sound hρ x tx σ σ1 va htx hvx
             have sb := shape_sound hρ y tx σ1 σ2 vb hty hvy
-            simp only [binAt_self hside sa sb, hP]
+            simp only [binAt_self hside sa sb (fun hmm => hrem (by rw [hm, hmm])), hP]
             cases lift2 (binop W.P m) va vb <;> rfl
     · simp at ht
   | land =>
